@@ -126,7 +126,12 @@ def combos(c, item):
                 case_['first_bad'] = fam[0]
         else:
             exp_total += e
-    pid = PIDInterface(list(prior), FakeModel(), prior)
+    # the prior dictionary, the list of parameters to estimate and the dictionary of values are each written in an order of their own
+    names = list(prior)
+    rot = sum(idxs) % len(names)
+    prior = {k_: prior[k_] for k_ in reversed(names)}
+    params = {k_: params[k_] for k_ in names[rot:] + names[:rot]}
+    pid = PIDInterface(names, FakeModel(), prior)
     c.count('evaluations'); c.count('transitions')
     case = dict(prior=prior, params=params)
     key = case_.get('first_bad', 'all-inside')
